@@ -496,7 +496,7 @@ namespace c15
             if (a == A_NEWLINE)
             {
                 if (sink.exec.back() != ref.executed.back())
-                    bad("exec:line", a, false, false, "executed \"" + sink.exec.back() + "\", reference \"" + ref.executed.back() + "\"");
+                    bad("exec:line", a, false, false, "executed \"" + vf::esc(sink.exec.back().data(), sink.exec.back().size()) + "\", reference \"" + ref.executed.back() + "\"");
                 VF_OK("executed line == reference line");
                 if (ref.executed.back().empty())
                     VF_OK("empty line executed");
@@ -514,7 +514,7 @@ namespace c15
                     unsigned len = term.len(), cur = term.cursor();
                     bool recall = a == A_UP || a == A_DOWN;
                     if (len != ref.line.size() || memcmp(term.data(), ref.line.data(), len) != 0)
-                        bad(recall ? "history:recall" : "editor:line", a, cursor_mid, false, "line \"" + std::string(term.data(), len) + "\", reference \"" + ref.line + "\"");
+                        bad(recall ? "history:recall" : "editor:line", a, cursor_mid, false, "line \"" + vf::esc(term.data(), len) + "\", reference \"" + ref.line + "\"");
                     if (cur != ref.cur)
                     {
                         char d[96];
@@ -746,7 +746,7 @@ namespace c15
             if (got != line || c != cur)
             {
                 char d[300];
-                snprintf(d, sizeof d, "line \"%s\" cursor %u, reference \"%s\" cursor %u", got.c_str(), c, line.c_str(), cur);
+                snprintf(d, sizeof d, "line \"%s\" cursor %u, reference \"%s\" cursor %u", vf::esc(got.data(), got.size()).c_str(), c, line.c_str(), cur);
                 bad("state", opname, d);
             }
             VF_OK("sline: line and cursor == reference");
@@ -913,7 +913,7 @@ namespace c15
             for (int i = 0; i < L; i++)
                 R.op((SOp)ops[i]);
             R.op(S_GETLINE);
-            if (s == 777 && vf::want_sample())
+            if (s == 777 && cap == 4 && vf::want_sample())
                 vf::sample("sline exhaustive: impl=%s cap=%u ops=%s", SL::impl(), cap, R.trace.c_str());
         }
         vf::count_bulk(nsuf, nsuf);
